@@ -61,6 +61,7 @@ type ReplayFile struct {
 	History     []Event        `json:"history_tail"`
 	Stats       map[string]int `json:"fault_counters"`
 	MinimiseRuns int           `json:"minimise_runs"`
+	Generate    bool           `json:"generate,omitempty"` // decisions are re-drawn from the seed (process-killing runs)
 }
 
 type KnownFindings struct {
@@ -159,8 +160,15 @@ func TestWorker(t *testing.T) {
 	states := map[string]bool{}
 	seen := map[uint64]bool{}
 	start := time.Now()
+	var progress *os.File
+	if op := os.Getenv("VERIF_OUT"); op != "" {
+		progress, _ = os.Create(op + ".progress")
+	}
 	for i := 0; i < maxRuns && time.Since(start) < budget; i++ {
 		seed := mix(batch, uint64(worker), uint64(i))
+		if progress != nil {
+			progress.WriteAt([]byte(fmt.Sprintf("%-24d %-12d\n", seed, i)), 0)
+		}
 		ch := NewChooser(seed)
 		dbg := os.Getenv("VERIF_DEBUG_RUN") == strconv.Itoa(i)
 		if dbg {
@@ -359,7 +367,12 @@ func replayMode(t *testing.T, prop *Property, path string, verbose bool) {
 	if tier == "" {
 		tier = "quick"
 	}
-	o := RunOne(t, prop, rf.Seed, NewReplayChooser(rf.Decisions), tier, verbose)
+	chooser := NewReplayChooser(rf.Decisions)
+	if rf.Generate {
+		chooser = NewChooser(rf.Seed)
+		fmt.Printf("REPLAY generate-mode seed=%d (a crash of this process is the violation)\n", rf.Seed)
+	}
+	o := RunOne(t, prop, rf.Seed, chooser, tier, verbose)
 	if o.Harness != "" {
 		fmt.Printf("REPLAY harness-error %s\n", o.Harness)
 		os.Exit(2)
